@@ -22,7 +22,8 @@ def pool():
     out = []
     for i, sh in enumerate(shs):
         n = len(model.leaves(sh))
-        out.append(model.simple_mt(sh, sid=i + 1, pos=[['T0', 'T1', 'T2', 'VROOT', 'EMPTY', '--'][(i + j) % 6] for j in range(n)]))
+        out.append(model.simple_mt(sh, sid=i + 1, pos=[['T0', 'T1', 'T2', 'VROOT', 'EMPTY', '--'][(i + j) % 6] for j in range(n)],
+                                   words=[['%', 'w', '%5', '#1', '5%'][(i + 2 * j) % 5] for j in range(n)]))
     return out
 
 
